@@ -189,7 +189,7 @@ func DijkstraAllFrom(u graph.Node, g traverse.Graph) ShortestAlts {
 }
 
 // DijkstraAllPaths returns a shortest-path tree for shortest paths in the graph g.
-// If the graph does not implement graph.Weighter, UniformCost is used.
+// If the graph does not implement Weighted, UniformCost is used.
 // DijkstraAllPaths will panic if g has a negative edge weight.
 //
 // The time complexity of DijkstraAllPaths is O(|V|.|E|+|V|^2.log|V|).
@@ -205,7 +205,7 @@ func DijkstraAllPaths(g graph.Graph) (paths AllShortest) {
 // result of the work in the paths parameter which is a reference type.
 func dijkstraAllPaths(g graph.Graph, paths AllShortest) {
 	var weight Weighting
-	if wg, ok := g.(graph.Weighted); ok {
+	if wg, ok := g.(Weighted); ok {
 		weight = wg.Weight
 	} else {
 		weight = UniformCost(g)
